@@ -374,6 +374,7 @@ def r5(ctx):
     sw = list(bool_switches(fa, lambda o: o[0] == "call" and o[2].endswith("::is_ok") and term_has_call(o, fa.blocks[v].term.get("callee")) is not None or (o[0] == "call" and o[2].endswith("::is_ok") and any(isinstance(x, tuple) and x[:2] == ("call", v) for x in subterms(o)))))
     sw2 = list(bool_switches(fa, lambda o: o[0] == "call" and o[2].endswith("::is_err") and any(isinstance(x, tuple) and x[:2] == ("call", v) for x in subterms(o))))
     oks = ok_returns(fa)
+    c = None
     if sw:
         okedge = sw[0][2]
     elif sw2:
@@ -384,7 +385,8 @@ def r5(ctx):
         c = checked(fa, v)
         if c:
             okedge = c["ok"]
-    ctx.check(P, rule, "Ok(()) only when the signature verified", okedge is not None and oks and all(fa.dominates(okedge, b) for b, s, t in oks),
+    returned = c is not None and c.get("how") == "returned" if not (sw or sw2) else False
+    ctx.check(P, rule, "Ok(()) only when the signature verified", okedge is not None and ((oks and all(fa.dominates(okedge, b) for b, s, t in oks)) or (returned and not oks)),
               "the only Ok return is dominated by verify(..).is_ok()", "crypto::verify can return Ok without a successful ed25519 verification", [loc(fa, b, s) for b, s, t in oks])
     # None signature -> Err
     ds = list(switch_edges_on(fa, lambda o: o == ("disc", ("param", "sig"))))
